@@ -211,6 +211,14 @@ func TestRaceChild(t *testing.T) {
 
 		mark("InvalidatorCall|InvalidatorCall")
 		runPair(func(i int) { _ = inv.Invalidate(context.Background()) }, func(i int) { _ = inv.Invalidate(context.Background()) }, iters)
+
+		// fresh instances with SkipInterval left at zero: the first calls install the default
+		mark("InvalidatorFirstCall|InvalidatorFirstCall")
+
+		for j := 0; j < 40; j++ {
+			fresh := &cache.Invalidator{Callbacks: []func(ctx context.Context){func(ctx context.Context) {}}}
+			runPair(func(i int) { _ = fresh.Invalidate(context.Background()) }, func(i int) { _ = fresh.Invalidate(context.Background()) }, 3)
+		}
 	}
 
 	mark("END")
